@@ -62,18 +62,18 @@ theorem inv_nil : Inv [] := ⟨List.nodup_nil, by simp [names]⟩
 theorem set_eq (d : Dir) (k : Key) (v : Bytes) (h : KeyOk k = true) :
     set d k v = (apply d (setOps k v), .ok) := by
   have f := keyFacts k h
-  simp [set, f.file, f.slash, f.ok]
+  simp [set, f.file, f.slash, f.ok, f.temp]
 
 theorem get_eq (d : Dir) (k : Key) (h : KeyOk k = true) :
     get d k = match lookup d k with | some c => .val c | none => .err := by
   have f := keyFacts k h
-  simp [get, f.file, f.slash, f.dir]
+  simp [get, f.file, f.slash, f.dir, f.temp]
   cases lookup d k <;> rfl
 
 theorem delete_eq (d : Dir) (k : Key) (h : KeyOk k = true) :
     delete d k = if (lookup d k).isSome then (erase d k, .ok) else (d, .err) := by
   have f := keyFacts k h
-  simp [delete, f.file, f.slash, f.dir]
+  simp [delete, f.file, f.slash, f.dir, f.temp]
 
 theorem abs_of_inv (d : Dir) (h : Inv d) (k : Key) : abs d k = lookup d k := by
   unfold abs
@@ -147,7 +147,14 @@ theorem step_refines (d : Dir) (h : Inv d) (op : Op) (hop : OpOk op = true) :
       funext k'
       rw [abs_of_inv _ (inv_erase d k h), lookup_erase]
   | list s =>
-    refine ⟨h, rfl, listSuffix d s, rfl, nodup_listSuffix d s h.1, ?_⟩
+    have hf : (listSuffix d s).filter (fun n => !isTempName (stripColon n)) = listSuffix d s := by
+      apply List.filter_eq_self.2
+      intro n hn
+      have hk := h.2 n (List.mem_filter.1 hn).1
+      have f := keyFacts n hk
+      have e : stripColon n = n := f.file
+      simp [e, f.temp]
+    refine ⟨h, rfl, listSuffix d s, by simp only [step, keysWithSuffix, hf], nodup_listSuffix d s h.1, ?_⟩
     intro k
     rw [mem_listSuffix, abs_of_inv d h]
   | reopen => exact ⟨h, rfl, rfl⟩
